@@ -8058,6 +8058,61 @@ let expectation_line m line =
        then app t s_NOEOL
        else if needs_kind content then app t s_EQUAL else t
 
+(** val x29 : n list **)
+
+let x29 =
+  (Npos (XO (XO (XI (XI (XI (XO XH))))))) :: ((Npos (XO (XO (XO (XI (XI (XI
+    XH))))))) :: ((Npos (XO (XI (XO (XO (XI XH)))))) :: ((Npos (XI (XO (XO
+    (XI (XI XH)))))) :: [])))
+
+(** val guard_noeol : text -> text **)
+
+let guard_noeol t =
+  match strip_suffix s_NOEOL t with
+  | Some h ->
+    app h
+      (app ((Npos (XO (XO (XO (XO (XO XH)))))) :: ((Npos (XO (XO (XO (XI (XO
+        XH)))))) :: ((Npos (XO (XI (XI (XI (XO (XI XH))))))) :: ((Npos (XI
+        (XI (XI (XI (XO (XI XH))))))) :: ((Npos (XI (XO (XI (XI (XO
+        XH)))))) :: ((Npos (XI (XO (XI (XO (XO (XI XH))))))) :: ((Npos (XI
+        (XI (XI (XI (XO (XI XH))))))) :: ((Npos (XO (XO (XI (XI (XO (XI
+        XH))))))) :: [])))))))) x29)
+  | None -> t
+
+(** val written_line : mode -> n list -> text **)
+
+let written_line m line =
+  let content = trim_newlines line in
+  if has_unprintable m content
+  then app (guard_noeol (escaped_printable m content)) s_ESCAPED
+  else expectation_line m line
+
+(** val guarded_line : bool -> bool -> mode -> n list -> text **)
+
+let guarded_line first cram m line =
+  let w = written_line m line in
+  if (||) ((&&) first (starts_with p_GT w))
+       ((&&) cram (starts_with p_DOLLAR w))
+  then (match trim_newlines line with
+        | [] -> w
+        | c :: rest ->
+          app
+            (guard_noeol
+              (app ((Npos (XO (XO (XI (XI (XI (XO XH))))))) :: ((Npos (XO (XO
+                (XO (XI (XI (XI
+                XH))))))) :: ((hexd (N.div c (Npos (XO (XO (XO (XO XH))))))) :: (
+                (hexd (N.modulo c (Npos (XO (XO (XO (XO XH))))))) :: []))))
+                (skipn (S (S (S (S O))))
+                  (escaped_printable m ((Npos XH) :: rest))))) s_ESCAPED)
+  else w
+
+(** val guarded_lines : bool -> mode -> n list list -> text list **)
+
+let guarded_lines cram m = function
+| [] -> []
+| l :: r ->
+  (guarded_line true cram m l) :: (map (guarded_line false cram m) r)
+
 (** val rule_matches : rule -> n list -> bool **)
 
 let rule_matches r line =
@@ -11596,6 +11651,17 @@ let gen_cram_doc m title cmd conts lines code =
        | Some t -> (BTitle t) :: []
        | None -> []) ((gen_cram_block m cmd conts lines code) :: [])
 
+(** val gen_cram_doc_g :
+    mode -> n list option -> n list -> n list list -> n list list -> n ->
+    block list **)
+
+let gen_cram_doc_g m title cmd conts lines code =
+  app (match title with
+       | Some t -> (BTitle t) :: []
+       | None -> []) ((BTest (cmd, conts,
+    (app (map (fun x -> BExp x) (guarded_lines true m lines))
+      (if N.eqb code N0 then [] else (BCode (dec code)) :: [])))) :: [])
+
 (** val gen_body : mode -> n list list -> n -> bline list **)
 
 let gen_body m lines code =
@@ -11620,6 +11686,24 @@ let gen_md_doc m title cmd conts lines code =
     (max_bt (S (S O)) (md_block_text cmd conts (gen_body m lines code)))),
     None, [], [], (Some ((cmd, conts), (gen_body m lines code))), [])) :: [])
 
+(** val gen_body_g : mode -> n list list -> n -> bline list **)
+
+let gen_body_g m lines code =
+  app (map (fun x -> BExp x) (guarded_lines true m lines))
+    (if N.eqb code N0 then [] else (BCode (dec code)) :: [])
+
+(** val gen_md_doc_g :
+    mode -> n list option -> n list option -> n list -> n list list -> n list
+    list -> n -> elem list **)
+
+let gen_md_doc_g m cfg title cmd conts lines code =
+  app
+    (match title with
+     | Some t -> (EHeading ((S O), t)) :: (EBlank :: [])
+     | None -> []) ((EScrut ((S
+    (max_bt (S (S O)) (md_block_text cmd conts (gen_body_g m lines code)))),
+    cfg, [], [], (Some ((cmd, conts), (gen_body_g m lines code))), [])) :: [])
+
 type gtest = { g_title : n list option; g_cmd : n list;
                g_conts : n list list; g_lines : n list list; g_code : 
                n }
@@ -11639,6 +11723,38 @@ let rec gen_cram_docs m = function
    | _ :: _ ->
      app (gen_cram_one m t)
        (app (BBlank :: (BBlank :: [])) (gen_cram_docs m r)))
+
+(** val gen_cram_one_g : mode -> gtest -> block list **)
+
+let gen_cram_one_g m t =
+  gen_cram_doc_g m t.g_title t.g_cmd t.g_conts t.g_lines t.g_code
+
+(** val gen_cram_docs_g : mode -> gtest list -> block list **)
+
+let rec gen_cram_docs_g m = function
+| [] -> []
+| t :: r ->
+  (match r with
+   | [] -> gen_cram_one_g m t
+   | _ :: _ ->
+     app (gen_cram_one_g m t)
+       (app (BBlank :: (BBlank :: [])) (gen_cram_docs_g m r)))
+
+(** val gen_md_one_g : mode -> n list option -> gtest -> elem list **)
+
+let gen_md_one_g m cfg t =
+  gen_md_doc_g m cfg t.g_title t.g_cmd t.g_conts t.g_lines t.g_code
+
+(** val gen_md_docs_g : mode -> n list option -> gtest list -> elem list **)
+
+let rec gen_md_docs_g m cfg = function
+| [] -> []
+| t :: r ->
+  (match r with
+   | [] -> gen_md_one_g m cfg t
+   | _ :: _ ->
+     app (gen_md_one_g m cfg t)
+       (app (EBlank :: (EBlank :: [])) (gen_md_docs_g m cfg r)))
 
 (** val gen_md_one : mode -> n list option -> gtest -> elem list **)
 
